@@ -524,6 +524,10 @@ func (t *topCase) deleteRange() {
 		for _, n := range st[ch] {
 			found := false
 			for _, o := range t.state[ch] {
+				if headHandedOver(n, o, a, t.state[ch]) {
+					found = true
+					break
+				}
 				if n.S >= o.S && n.E <= o.E && bytes.Contains(o.Data, n.Data) {
 					found = true
 					if !overlaps(o.S, o.E, a, b) && (n.S != o.S || n.E != o.E || !bytes.Equal(n.Data, o.Data)) {
